@@ -14,3 +14,5 @@ import AmVerif.Props.C15
 import AmVerif.Props.C13
 import AmVerif.Props.C14
 import AmVerif.Props.C07
+import AmVerif.Props.C10
+import AmVerif.Props.C06
